@@ -59,6 +59,7 @@ def shards(tier):
         for j in range(nl):
             out.append(("layout", (i, j)))
     out.append(("wrap", 0))
+    out.append(("long", 0))
     out.append(("strshort", 0))
     for i in range(len(LINE_ALPHA)):
         out.append(("lines", i))
@@ -185,8 +186,9 @@ def template(ctx):
     return t
 
 
-def check_string(body, res, viol, full=True):
-    """body as (a) raw block-string body, (b) programmatic block value, (c) programmatic quoted value."""
+def check_string(body, res, viol, full=True, reverse=False):
+    """body as (a) raw block-string body, (b) programmatic block value, (c) programmatic quoted value
+    (reverse: the quoted form is printed before the block forms - the order matters to anything the printer remembers)."""
     from graphql import GraphQLSyntaxError, parse
     from graphql.language import StringValueNode
     from graphql.language.block_string import is_printable_as_block_string
@@ -195,6 +197,14 @@ def check_string(body, res, viol, full=True):
         return parse(s, no_location=True)
 
     contexts = CONTEXTS if full else CONTEXTS[:2]
+    if reverse:
+        if not any("\ud800" <= ch <= "\udfff" for ch in body):
+            for name, _fmt, get in contexts:
+                tree = replace_string(template(name), StringValueNode(value=body, block=False))
+                text = roundtrip(tree, p, res, viol, f"{name}:quoted-programmatic-first:{body!r}", None)
+                if text is None:
+                    return
+                res.outcome(text)
     # (a) raw block string body, if that is lexable
     raw = '"""' + body + '"""'
     rt = reflex.tokens(raw)
@@ -231,6 +241,26 @@ def check_string(body, res, viol, full=True):
             if text is None:
                 return
             res.outcome(text)
+
+
+LONG_LENGTHS = [60, 70, 71, 78, 79, 80, 81, 82, 100, 200, 1000]
+LONG_PATTERNS = [("x", ""), ("ab ", ""), ("x", "\n"), ("x", '"'), ("x", "\\"), (" x", ""), ("\tx", ""), ("\u00e9", ""), ("x", " y")]
+
+
+def run_long(res, viol):
+    """Texts around the printer's line-length thresholds (70 / 80 characters) in both literal forms, one after the other in
+    both orders within one process - each text is used once per order, so that a process-wide memory shows."""
+    n = 0
+    for length in LONG_LENGTHS:
+        for pi, (unit, tail) in enumerate(LONG_PATTERNS):
+            for reverse in (False, True):
+                # a different text per order: the marker sits before the tail
+                body = (unit * length)[:length - len(tail) - 1] + ("r" if reverse else "f") + tail
+                check_string(body, res, viol, full=True, reverse=reverse)
+                n += 1
+    res.states += n
+    res.transitions += n
+    res.sample({"family": "long strings, both literal forms in both orders", "lengths": LONG_LENGTHS}, 1)
 
 
 def run_shard(shard, tier):
@@ -330,6 +360,8 @@ def run_shard(shard, tier):
                 check_string(body, res, viol, full=False)
                 res.states += 1
                 res.transitions += 1
+    elif kind == "long":
+        run_long(res, viol)
     elif kind == "wrap":
         cur["kind"] = "wrap"
         # the printer switches layout when a line would exceed 80 columns
